@@ -172,8 +172,8 @@ Definition declared_type (t : string) : ty :=
 
 Definition plain_ctx : lint_ctx := LC Gen.LintVars.lint_var_tree [].
 
-(* type of the right operand and isLiteralExpression; None when the form does not exist for the type *)
-Definition right_operand (t form : string) : option (ty * bool) :=
+(* type of a value written directly and isLiteralExpression; None when the form does not exist for the type *)
+Definition base_operand (t form : string) : option (ty * bool) :=
   if String.eqb form "lit" then
     if String.eqb t "INTEGER" then Some (TInteger, true) else if String.eqb t "FLOAT" then Some (TFloat, true)
     else if String.eqb t "STRING" then Some (TString, true) else if String.eqb t "BOOL" then Some (TBool, false)
@@ -187,6 +187,32 @@ Definition right_operand (t form : string) : option (ty * bool) :=
     if String.eqb (predef_name t) "" then None
     else match lint_get plain_ctx (predef_name t) recv_mode with Some v => Some (ty_of v, false) | None => None end
   else None.
+
+Definition param_base (form : string) : string :=
+  if String.eqb form "plit" then "lit" else if String.eqb form "plocal" then "local"
+  else if String.eqb form "ppredef" then "predef" else "".
+
+(* the value in one of the eight forms: (type, isLiteralExpression, the binding at the call site is accepted).
+   A parameter (plit / plocal / ppredef) and the result of a functional subroutine (call) have the declared type;
+   lintFunctionCallExpression accepts an argument only when its type EQUALS the parameter type;
+   if(c, a, b) has the type of its consequence *)
+Definition right_operand_ex (t form : string) : option (ty * bool * bool) :=
+  if mem_str form ["lit"; "local"; "predef"] then
+    match base_operand t form with Some (a, l) => Some (a, l, true) | None => None end
+  else if mem_str form ["plit"; "plocal"; "ppredef"] then
+    if String.eqb t "header" then None
+    else match base_operand t (param_base form) with
+         | Some (a, _) => Some (declared_type t, false, ty_eqb a (declared_type t))
+         | None => None
+         end
+  else if String.eqb form "call" then
+    if String.eqb t "header" then None else Some (declared_type t, false, true)
+  else if String.eqb form "ifexp" then
+    match base_operand t "local" with Some (a, _) => Some (a, false, true) | None => None end
+  else None.
+
+Definition right_operand (t form : string) : option (ty * bool) :=
+  match right_operand_ex t form with Some (a, l, _) => Some (a, l) | None => None end.
 
 (* type the linter gives to the assignment target (Context.Set) / to the left operand of a comparison (Context.Get) *)
 Definition left_set_type (t : string) : ty :=
@@ -204,11 +230,43 @@ Definition compare_ops : list string := ["=="; "!="; "<"; ">"; "<="; ">="; "~"; 
 
 (* the linter's verdict on the one-statement program of an operator cell *)
 Definition lint_op_model (op lty rty form : string) : bool :=
-  match right_operand rty form with
+  match right_operand_ex rty form with
   | None => false
-  | Some (r, lit) =>
-    if mem_str op assign_ops then lint_set_operator op (left_set_type lty) r lit
-    else lint_infix_compare op (left_get_type lty) r lit
+  | Some (r, lit, bound) =>
+    bound &&
+    (if mem_str op assign_ops then lint_set_operator op (left_set_type lty) r lit
+     else lint_infix_compare op (left_get_type lty) r lit)
+  end.
+
+(* ---- a value where a type is expected: linter/function.go implicitCoersionTable (built-in arguments and, in
+   lintReturnStatement, return values); parameters of functional subroutines need the exact type *)
+Definition implicit_coercions (expected : ty) : option (list ty) :=
+  match expected with
+  | TTime => Some [TString]
+  | TRTime => Some [TTime; TString]
+  | TIP => Some [TString]
+  | TID => Some [TString]
+  | TString => Some [TString; TReqBackend; TBackend; TInteger; TFloat; TBool; TID; TRTime; TIP; TTime]
+  | _ => None
+  end.
+Definition lint_coerces (expected actual : ty) : bool :=
+  ty_eqb expected actual ||
+  match implicit_coercions expected with Some l => existsb (ty_eqb actual) l | None => false end.
+
+(* isLiteralOfNonStringType: a literal INTEGER / FLOAT / RTIME or a declared backend name has no implicit
+   conversion to STRING *)
+Definition literal_of_non_string_type (a : ty) (is_literal : bool) (form : string) : bool :=
+  negb (ty_eqb a TString || ty_eqb a TBool)
+  && (is_literal || (ty_eqb a TBackend && String.eqb form "lit")).
+
+Definition lint_coerce_model (ctx e t form : string) : bool :=
+  match right_operand_ex t form with
+  | None => false
+  | Some (a, lit, bound) =>
+    bound &&
+    (if String.eqb ctx "par" then ty_eqb (declared_type e) a
+     else lint_coerces (declared_type e) a
+          && negb (ty_eqb (declared_type e) TString && literal_of_non_string_type a lit form))
   end.
 
 (* ---- the Fastly assignment type table, written as data:
